@@ -480,7 +480,11 @@ func (r *Repository) Referrers(ctx context.Context, desc ocispec.Descriptor, art
 		return r.referrersByTagSchema(ctx, desc, artifactType, fn)
 	}
 
-	err := r.referrersByAPI(ctx, desc, artifactType, fn)
+	var fnErr error
+	err := r.referrersByAPI(ctx, desc, artifactType, func(referrers []ocispec.Descriptor) error {
+		fnErr = fn(referrers)
+		return fnErr
+	})
 	if state == referrersStateSupported {
 		// The repository is known to support Referrers API, no fallback.
 		return err
@@ -488,7 +492,8 @@ func (r *Repository) Referrers(ctx context.Context, desc ocispec.Descriptor, art
 
 	// The referrers state is unknown.
 	if err != nil {
-		if errors.Is(err, errdef.ErrUnsupported) {
+		// an error returned by fn says nothing about the registry
+		if fnErr == nil && errors.Is(err, errdef.ErrUnsupported) {
 			// Referrers API is not supported, fallback to referrers tag schema.
 			r.SetReferrersCapability(false)
 			return r.referrersByTagSchema(ctx, desc, artifactType, fn)
